@@ -48,10 +48,49 @@ def expandAlign {α} (outLen : Nat) (ps : List (Nat × List α)) : ListCol α :=
     values := (qs.map (·.2)).flatten,
     valid := (List.range outLen).map (fun r => decide (r ∈ qs.map (·.1))) }
 
+/-- The list array handed to `_expand_and_align_list_array` may be a *slice* of a longer Arrow array: its child
+    buffer then starts with `lead` elements that belong to the part sliced away.  The unrepaired code reads
+    `lists.values` (the whole child buffer) unless it had to `take`/`drop_null` first (which compacts the array);
+    the repaired code reads `lists.flatten()`. -/
+def expandAlignRaw {α} (v : Variant) (outLen : Nat) (lead : List α) (ps : List (Nat × List α)) : ListCol α :=
+  let c := expandAlign outLen ps
+  match v with
+  | .repaired => c
+  | .asIs =>
+    if (sortPairs ps).map (·.1) == ps.map (·.1) then { c with values := lead ++ c.values } else c
+
 /-- reading entry `r` of a list column -/
 def ListCol.get {α} (c : ListCol α) (r : Nat) : Option (List α) :=
   if c.valid.getD r false then
     some ((c.values.drop (c.offsets.getD r 0)).take (c.offsets.getD (r + 1) 0 - c.offsets.getD r 0))
   else none
+
+/-! ### dense vector layout (`_add_dense_vector_attribute`)
+
+`ps` = (row number, optional vector) in input order.  When every table row receives a non-null vector the code
+keeps a fixed-size-list array: the unrepaired code returns `values` **as supplied** (input order), the repaired code
+`values.take(argsort(rows))`.  Otherwise the vectors are cast to a list array and go through `expandAlign`
+(null entries dropped first). -/
+inductive VecCol (α : Type) where
+  | fixed (rows : List (Option (List α)))
+  | listy (c : ListCol α)
+
+def dropNulls {β} (ps : List (Nat × Option β)) : List (Nat × β) :=
+  ps.filterMap (fun p => p.2.map (fun l => (p.1, l)))
+
+def fullCover {α} (n : Nat) (ps : List (Nat × Option α)) : Bool :=
+  (List.range n).all (fun r => decide (r ∈ ps.map (·.1))) && ps.all (·.2.isSome)
+
+def addDense {α} (v : Variant) (n : Nat) (ps : List (Nat × Option (List α))) : VecCol α :=
+  if fullCover n ps then
+    match v with
+    | .asIs => .fixed (ps.map (·.2))
+    | .repaired => .fixed ((sortPairs ps).map (·.2))
+  else .listy (expandAlign n (dropNulls ps))
+
+def VecCol.get {α} (c : VecCol α) (r : Nat) : Option (List α) :=
+  match c with
+  | .fixed rows => (rows[r]?).join
+  | .listy c => c.get r
 
 end LK.Attr
